@@ -686,6 +686,8 @@ def circuits(n):
         out["chain"] = ry + [("CNOT", (0, 1)), ("CNOT", (1, 2)), ("RZ(v)", (0,)), ("RX(u)", (2,))]
     if n == 4:
         out["entangled"] = ry + [("CNOT", (3, 1)), ("RX(u)", (2,)), ("SWAP", (0, 3))]
+        # three-qubit gates whose qubits are scattered / out of order inside the register (numpy and sympy lifting paths)
+        out["scattered3"] = ry + [("X|c2", (0, 3, 2)), ("RX(u)|c2", (1, 3, 2))]
     # multi-qubit gates whose parameter is still symbolic when the state is computed (sympy lifting path)
     if n == 2:
         out["sym2q"] = ry + [("RY(v)|c1", (0, 1)), ("XX(u)", (1, 0))]
@@ -725,15 +727,17 @@ def other_ops(n):
 def instances(tier, seed):
     items = []
     rng = random.Random(seed * 31 + 4)
-    widths = (1, 2, 3) if tier == "quick" else (1, 2, 3, 4)
+    widths = (1, 2, 3, 4)
     for n in widths:
         for cname, specs in circuits(n).items():
-            if tier == "quick" and cname == "chain":
+            if tier == "quick" and (cname == "chain" or (n == 4 and cname != "scattered3")):
                 continue
             sp = [[g, list(q)] for g, q in specs]
             ops = z_ops(n) + other_ops(n)
             for ol, terms in ops:
                 if tier == "quick" and n == 3 and cname == "entangled" and not (ol.startswith("Z") or stable_pick((ol, cname), 2, seed)):
+                    continue
+                if tier == "quick" and n == 4 and not (ol in ("Z[0]", "Z[1]", "Z[2]", "Z[3]", "X2", "Y3") or stable_pick((ol, cname), 6, seed)):
                     continue
                 items.append(("exact", {"n": n, "specs": sp, "terms": [[c, [list(f) for f in fs]] for c, fs in terms], "oplabel": ol, "cname": cname, "label": f"n={n} {cname} op={ol}"}))
             items.append(("dist", {"n": n, "specs": sp, "label": f"n={n} {cname}"}))
@@ -779,7 +783,7 @@ def run(ctx):
     if getattr(ctx, "only", None):
         items = [it for it in items if ctx.only in it[1]["label"] or ctx.only == it[0]]
     ctx.bounds = {
-        "widths": "n = 1, 2, 3 (thorough: also 4, and a 3-qubit CNOT-chain circuit with RZ/RX)",
+        "widths": "n = 1, 2, 3 and one 4-qubit circuit with three-qubit gates on scattered, out-of-order qubits (thorough: all 4-qubit circuits, and a 3-qubit CNOT-chain circuit with RZ/RX)",
         "circuits": "asymmetric product state RY(t_q) on every qubit q (independent symbolic angles), optionally followed by CNOT(n-1,0) and RX(u)(1 or n-1): all angles symbolic",
         "operators": "every Z-type operator on every non-empty qubit subset; X_q, Y_q on every qubit, mixed strings X0*Y1, Y0*Z(n-1), X0*Y1*Z2, an unordered string and a 3-term sum with a constant",
         "sampling": "N = 2^n (string branch) and N = 2^n + 1 (tuple branch); thorough also N = 1 and 3*2^n; generic symbolic states for n <= 2 (3 in thorough)",
